@@ -66,6 +66,9 @@ pub struct Script {
     pub offers: Vec<(usize, usize)>,
     /// the write half was shut down (tokio poll_shutdown): further writes fail like on a real socket
     pub shut: bool,
+    /// the transport announces efficient vectored writes (as tokio's TcpStream does) and accepts gathered buffers: the scripted
+    /// acceptance then counts bytes across the slices of one call, like writev
+    pub vectored: bool,
     pub min_offered: usize,
     pub max_offered: usize,
     /// a waker parked by a Stall step (never woken by the transport)
@@ -85,6 +88,11 @@ impl Transport {
             min_offered: usize::MAX,
             ..Default::default()
         })))
+    }
+    /// the write half announces (and serves) vectored writes
+    pub fn vectored(self, on: bool) -> Self {
+        self.0.lock().unwrap().vectored = on;
+        self
     }
     pub fn push_event(&self, e: Event) {
         self.0.lock().unwrap().trace.push(e);
@@ -222,6 +230,18 @@ impl Write for Transport {
             Err(k) => Err(io::Error::new(k, "scripted transport error")),
         }
     }
+    fn write_vectored(&mut self, bufs: &[io::IoSlice<'_>]) -> io::Result<usize> {
+        let vectored = self.0.lock().unwrap().vectored;
+        if !vectored {
+            // the default of std: the first non-empty slice
+            return match bufs.iter().find(|b| !b.is_empty()) {
+                Some(b) => self.write(b),
+                None => Ok(0),
+            };
+        }
+        let all: Vec<u8> = bufs.iter().flat_map(|b| b.iter().copied()).collect();
+        self.write(&all)
+    }
     fn flush(&mut self) -> io::Result<()> {
         Ok(())
     }
@@ -262,6 +282,19 @@ impl AsyncWrite for Transport {
             },
             Err(k) => Poll::Ready(Err(io::Error::new(k, "scripted transport error"))),
         }
+    }
+    fn is_write_vectored(&self) -> bool {
+        self.0.lock().unwrap().vectored
+    }
+    fn poll_write_vectored(self: Pin<&mut Self>, cx: &mut Context<'_>, bufs: &[io::IoSlice<'_>]) -> Poll<io::Result<usize>> {
+        let vectored = self.0.lock().unwrap().vectored;
+        if !vectored {
+            // tokio's default: the first non-empty slice
+            let first = bufs.iter().find(|b| !b.is_empty()).map(|b| &**b).unwrap_or(&[]);
+            return self.poll_write(cx, first);
+        }
+        let all: Vec<u8> = bufs.iter().flat_map(|b| b.iter().copied()).collect();
+        self.poll_write(cx, &all)
     }
     fn poll_flush(self: Pin<&mut Self>, cx: &mut Context<'_>) -> Poll<io::Result<()>> {
         // the write half's readiness script also governs flushing: a scripted Pending delays a flush just as it delays a write
@@ -376,7 +409,9 @@ pub fn run_blocking(mode: &Mode, verify: bool, reads: Vec<ReadStep>, writes: Vec
 
 /// like run_blocking, with application calls: `(k, op)` is executed before read attempt number k
 pub fn run_blocking_app(mode: &Mode, verify: bool, reads: Vec<ReadStep>, writes: Vec<WriteStep>, max_reads: usize, app: &[(usize, AppOp)]) -> Session {
-    let t = Transport::new(reads, writes);
+    // every other write script is served by a transport that announces vectored writes
+    let vectored = writes.len() % 2 == 1;
+    let t = Transport::new(reads, writes).vectored(vectored);
     let mut framed = insim::net::blocking_impl::Framed::new(Box::new(t.clone()), Codec::new(mode.clone()));
     framed.verify_version(verify);
     let mut results = vec![];
@@ -426,7 +461,8 @@ pub fn run_tokio(mode: &Mode, verify: bool, reads: Vec<ReadStep>, writes: Vec<Wr
 }
 
 pub fn run_tokio_app(mode: &Mode, verify: bool, reads: Vec<ReadStep>, writes: Vec<WriteStep>, max_reads: usize, app: &[(usize, AppOp)]) -> Session {
-    let t = Transport::new(reads, writes);
+    let vectored = writes.len() % 2 == 1;
+    let t = Transport::new(reads, writes).vectored(vectored);
     let rt = tokio_runtime();
     let mut results = vec![];
     let mut panic = None;
